@@ -199,7 +199,7 @@ func corrupt(lines []string, d asm.Dialect, m int, r *Rng) ([]string, string) {
 		out = append(out[:pos], append([]string{l}, out[pos:]...)...)
 	case 14:
 		kind = "metadata-short"
-		l := []string{";strategy", ";name", ";author", ";strateg", ";strategyX", ";", ";redcode", ";redcode-94", ";redcode-x", ";REDCODE"}[r.Intn(10)]
+		l := []string{";strategy", ";name", ";author", ";strateg", ";strategyX", ";", ";redcode", ";redcode-94", ";redcode-x", ";REDCODE", ";name \"", ";author \"", ";name \"\"", ";author '", ";strategy \""}[r.Intn(15)]
 		pos := r.Intn(len(out) + 1)
 		out = append(out[:pos], append([]string{l}, out[pos:]...)...)
 	default:
